@@ -151,6 +151,39 @@ def make(cases_path, files_path, seed, fmts=('bin', 'xml')):
                 out.write(json.dumps({'id': f'{rec["n"]}.xml.{order}', 'origin': {'label': rec['label'], 'order': order}, 'fmt': 'xml', 'text': doc,
                                       'expected': expected, 'tags': ['r-xml', order, leg['name']], 'sig': f':r-xml:{leg["name"]}' + (f'={leg["value"]["v"]}' if leg['value']['t'] == 'Enum' else '')}) + '\n')
                 n += 1
+        # ---- two legacy spellings of one target on the same instance around the explicit value (BasePart: BrickColor,
+        #      brickColor -> Color, stored as Color3uint8): the explicit value wins in all six orders, in both formats
+        import itertools
+        for cls in ('Part', 'SpawnLocation'):
+            explicit = {'t': 'Color3uint8', 'v': [0, 255, 0]}
+            parts = {'BrickColor': ('BrickColor', {'t': 'BrickColor', 'v': 23}), 'brickColor': ('BrickColor', {'t': 'BrickColor', 'v': 21}), 'Color3uint8': ('Color3uint8', explicit)}
+            expected = {'roots': [{'class': cls, 'name': 'n', 'props': {'Color': explicit}, 'children': []}]}
+            for perm in itertools.permutations(['BrickColor', 'brickColor', 'Color3uint8']):
+                order = '>'.join(perm)
+                if 'xml' in fmts:
+                    try:
+                        elems = [xml_elem(nm, parts[nm][0], parts[nm][1], nm != 'Color3uint8') for nm in perm]
+                        doc = (f'<roblox version="4"><Item class="{cls}" referent="RBX1"><Properties><string name="Name">n</string>' + ''.join(elems) + '</Properties></Item></roblox>')
+                        out.write(json.dumps({'id': f'three.{cls}.xml.{order}', 'origin': {'label': 'two legacy spellings and the explicit value', 'order': order}, 'fmt': 'xml', 'text': doc,
+                                              'expected': expected, 'tags': ['r-xml', 'three-spellings', order], 'sig': ':r-xml:three-spellings'}) + '\n')
+                        n += 1
+                    except (ValueError, KeyError):
+                        pass
+                if 'bin' in fmts:
+                    try:
+                        rng = random.Random(f'{seed}-three-{cls}-{order}')
+                        props = {nm: to_wire_value(parts[nm][1], rng) for nm in perm}
+                        model = refbin.model_from_dump({'roots': [{'class': cls, 'name': 'n', 'props': props, 'children': []}]}, rng, {'force': {'chunk_order': 'grouped'}})
+                        idx = [i for i, c in enumerate(model['chunks']) if c['name'] == 'PROP' and c['body']['name'] in parts]
+                        chunks = {model['chunks'][i]['body']['name']: model['chunks'][i] for i in idx}
+                        for slot, nm in zip(sorted(idx), perm):
+                            model['chunks'][slot] = chunks[nm]
+                        data = refbin.encode(model, variant=ENC_VARIANT)
+                        out.write(json.dumps({'id': f'three.{cls}.bin.{order}', 'origin': {'label': 'two legacy spellings and the explicit value', 'order': order}, 'fmt': 'bin', 'bytes_hex': data.hex(),
+                                              'expected': expected, 'tags': ['r-bin', 'three-spellings', order], 'sig': ':r-bin:three-spellings'}) + '\n')
+                        n += 1
+                    except (refbin.RefError, KeyError):
+                        pass
     return n
 
 
